@@ -112,6 +112,11 @@ impl Governor {
                 ..Default::default()
             },
 
+            (EngineState::Starting, EngineState::NoRequest | EngineState::Stopping) => Engine {
+                rpm: self.reshape(self.rpm_idle),
+                state: EngineState::Stopping,
+                ..Default::default()
+            },
             (EngineState::Starting, _) => {
                 if let Some(instant) = command_instant {
                     if instant.elapsed() > self.state_transition_timeout {
